@@ -53,6 +53,17 @@ def gen(rng, tier):
             shape = [rng.randint(1, 9) for _ in range(rank)]
             form = rng.choice(["nd", "list", "tuple", "dict", "nd:int32", "nd:uint8"])
             cases.append({"kind": "io", "cls": cls, "shape": shape, "form": form, "rt": rt})
+    # CubaLIF with every admissible form of w_in (lower rank, length-1 axes, scalar, full)
+    for _ in range(24 if tier == "quick" else 300):
+        rank = rng.choice([1, 2, 2, 3])
+        shape = [rng.randint(1, 5) for _ in range(rank)]
+        cases.append({"kind": "elementwise", "cls": "CubaLIF", "shape": shape, "dt": rng.choice(["float32", "float64", "int32"]),
+                      "rt": rng.choice(["none", "dict", "file"]), "w_in": rng.choice(["ones1", "ones1", "lead1", "scalar", "full"])})
+    # Affine with a bias that broadcasts over the batch
+    for _ in range(10 if tier == "quick" else 100):
+        shape = [rng.randint(1, 4) for _ in range(rng.choice([3, 4]))]
+        cases.append({"kind": "matvec", "cls": "Affine", "shape": shape, "dt": "float32", "rt": rng.choice(["none", "dict", "file"]),
+                      "bias": rng.choice(["vec", "row1"])})
     return cases
 
 
@@ -62,6 +73,8 @@ def recipe(c):
         args = {"weight": w}
         if c["cls"] == "Affine":
             args["bias"] = np.zeros(c["shape"][-2], dtype=c["dt"])
+            if c.get("bias") == "row1":
+                args["bias"] = np.zeros((1, c["shape"][-2]), dtype=c["dt"])
         return {"k": c["cls"], "args": args}
     if c["kind"] == "elementwise":
         args = {p: np.ones(c["shape"], dtype=c["dt"]) for p in ELEMENTWISE[c["cls"]]}
@@ -72,6 +85,8 @@ def recipe(c):
                 args["w_in"] = np.ones(c["shape"], dtype="float32")
             elif c["w_in"] == "ones1" and len(c["shape"]) >= 1:
                 args["w_in"] = np.ones(c["shape"][-1:], dtype="float32")
+            elif c["w_in"] == "lead1" and len(c["shape"]) >= 1:
+                args["w_in"] = np.ones([1] + list(c["shape"][1:]), dtype="float32")
         return {"k": c["cls"], "args": args}
     form = c["form"]
     if c["cls"] == "Output" and form == "dict":
@@ -115,7 +130,7 @@ def run(c):
     import nir
     r = recipe(c)
     res = try_build(r)
-    sig = (c["cls"], tuple(c["shape"]), c.get("form"), c.get("dt"), c["rt"], c.get("w_in"))
+    sig = (c["cls"], tuple(c["shape"]), c.get("form"), c.get("dt"), c["rt"], c.get("w_in"), c.get("bias"))
     nontriv = len(c["shape"]) >= 2 or c["rt"] != "none"
     coq = cbuild(r, res) if c["rt"] == "none" else None
     if res[0] != "ok":
